@@ -278,7 +278,9 @@ func xid6(x uint32) dhcpv6.TransactionID {
 }
 
 func req4(x uint32) *dhcpv4.DHCPv4 {
-	p, err := dhcpv4.NewDiscovery(clHW, dhcpv4.WithTransactionID(xid4(x)))
+	// with a client identifier (RFC 2132 section 9.14), as most clients send one
+	p, err := dhcpv4.NewDiscovery(clHW, dhcpv4.WithTransactionID(xid4(x)),
+		dhcpv4.WithOption(dhcpv4.OptClientIdentifier(append([]byte{1}, clHW...))))
 	if err != nil {
 		panic(err)
 	}
@@ -306,6 +308,16 @@ func reply4(x uint32, class byte, idx int, op dhcpv4.OpcodeType, hw net.Hardware
 		panic(err)
 	}
 	p.OpCode = op
+	// servers differ in what they do with the client identifier: one in three echoes it,
+	// one in three answers with another value (its own notion of the client), one in
+	// three leaves it out; none of that is a criterion for the client (RFC 2131 4.3.1
+	// correlates by xid; seeded change C10-11: replies with a differing option 61 skipped)
+	switch idx % 3 {
+	case 1:
+		p.UpdateOption(dhcpv4.OptClientIdentifier(append([]byte{1}, clHW...)))
+	case 2:
+		p.UpdateOption(dhcpv4.OptClientIdentifier([]byte{0, 'o', 't', 'h', 'e', 'r', byte(idx)}))
+	}
 	return p.ToBytes()
 }
 
@@ -316,7 +328,11 @@ func reply6(x uint32, class byte, idx int) []byte {
 	}
 	m.MessageType = dhcpv6.MessageTypeReply
 	m.TransactionID = xid6(x)
+	// a server's answer carries identifiers: the datagram is as long as real ones are
+	// (a reader that cuts datagrams short must not get away with an 11-byte reply)
+	m.AddOption(dhcpv6.OptServerID(&dhcpv6.DUIDLL{HWType: 1, LinkLayerAddr: net.HardwareAddr{2, 0, 0x5e, 0, 0, byte(idx)}}))
 	m.AddOption(&dhcpv6.OptionGeneric{OptionCode: dhcpv6.OptionCode(tagOpt6), OptionData: []byte{class, byte(idx >> 8), byte(idx)}})
+	m.AddOption(dhcpv6.OptClientID(&dhcpv6.DUIDLL{HWType: 1, LinkLayerAddr: clHW}))
 	return m.ToBytes()
 }
 
